@@ -59,7 +59,13 @@ class ParsedHeaders(Mapping[bytes, Sequence[BaseHeader]]):
             #   https://github.com/python/typeshed/pull/4365
             # assign to hdr_name, hdr_value = ... instead.
             hdr_tuple = SMTP.header_source_parse(lines)
-            yield cls._registry(hdr_tuple[0], hdr_tuple[1])
+            try:
+                parsed = cls._registry(hdr_tuple[0], hdr_tuple[1])
+            except Exception:
+                # the email package can fail on malformed values, e.g.
+                # address lists like ``From: "``; treat them as absent
+                continue
+            yield parsed
 
     def __repr__(self) -> str:
         return repr(dict(self))
